@@ -7,6 +7,7 @@ CONSTANTS
   Kv <- None
   Changes = {c1, c2}
   MaxPend = 1
+  NoSpace <- None
   Dev <- None
   Budget <- Bl
 PROPERTY EventuallyConverged
